@@ -1613,6 +1613,10 @@ func (w *world) migrate(fromID int, fromAddr sdk.AccAddress, to *actor, signer i
 	if cls == 0 && !bytes.Equal(common.HexToAddress(toStr).Bytes(), to.addr) {
 		w.out.Violate("harness: HexToAddress of a canonical hex spelling is not the address it spells")
 	}
+	// the transaction-level signer (what the ante handler demands a signature of) is exactly the source
+	if signers, _, err := w.s.App.AppCodec().GetMsgV1Signers(&migratetypes.MsgMigrateAccount{From: fromAddr.String(), To: toStr, Signature: sig}); err != nil || len(signers) != 1 || !bytes.Equal(signers[0], fromAddr) {
+		w.out.Violate("signers: the required transaction signer of MsgMigrateAccount is not exactly the source account")
+	}
 	rawTarget := w.rawStakingRecords(to.addr)
 	entriesBefore := w.entryTotals()
 	msg := &migratetypes.MsgMigrateAccount{From: fromAddr.String(), To: toStr, Signature: sig}
